@@ -403,17 +403,33 @@ impl Interpreter {
 
                 state.stack.push_bigint(a % b)?;
             }
-            OpCodes::OP_LSHIFT => {
-                let a = state.stack.pop_bigint()?;
-                let b = state.stack.pop_number()?;
+            OpCodes::OP_LSHIFT | OpCodes::OP_RSHIFT => {
+                // x n -> x shifted by n bits. The shift is a logical shift of the byte string (first byte most significant), its length is kept.
+                let bits = state.stack.pop_number()?;
+                let data = state.stack.pop_bytes()?;
 
-                state.stack.push_bigint(a << b)?;
-            }
-            OpCodes::OP_RSHIFT => {
-                let a = state.stack.pop_bigint()?;
-                let b = state.stack.pop_number()?;
+                if bits < 0 {
+                    return Err(InterpreterError::InvalidStackOperation("Shift count cannot be negative"));
+                }
 
-                state.stack.push_bigint(a >> b)?;
+                let byte_shift = bits as usize / 8;
+                let bit_shift = bits as u32 % 8;
+                let len = data.len();
+                let mut shifted = vec![0u8; len];
+                for i in 0..len {
+                    if *opcode == OpCodes::OP_LSHIFT {
+                        // result byte i takes its bits from source bytes i + byte_shift and i + byte_shift + 1
+                        let hi = data.get(i + byte_shift).copied().unwrap_or(0) as u16;
+                        let lo = data.get(i + byte_shift + 1).copied().unwrap_or(0) as u16;
+                        shifted[i] = (((hi << 8 | lo) << bit_shift) >> 8) as u8;
+                    } else {
+                        let lo = if i >= byte_shift { data[i - byte_shift] as u16 } else { 0 };
+                        let hi = if i > byte_shift { data[i - byte_shift - 1] as u16 } else { 0 };
+                        shifted[i] = ((hi << 8 | lo) >> bit_shift) as u8;
+                    }
+                }
+
+                state.stack.push_bytes(shifted);
             }
             OpCodes::OP_BOOLAND => {
                 let a = state.stack.pop_bool()?;
